@@ -98,8 +98,10 @@ func genC19(r *kit.RNG) *C19Scenario {
 		sc.Networks = []string{"bogus/99"}
 	}
 	clients := []string{"10.1.1.1", "10.1.2.2", "10.2.0.9", "192.168.7.7", "2001:db8::1", "2001:db9::5"}
-	subnets4 := []string{"198.51.100.77", "198.51.100.200", "198.51.101.1", "198.51.7.7", "203.0.113.5"}
-	subnets6 := []string{"2001:db8:1:2:3:4:5:6", "2001:db8:1:2::9", "2001:db8:ffff::1"}
+	// 198.51.0.9 and 2001:db8:1::7 sit at the start of the shorter prefixes of their neighbours
+	// (198.51.7.7/16 and 198.51.0.9/24 share the network address 198.51.0.0)
+	subnets4 := []string{"198.51.100.77", "198.51.100.200", "198.51.101.1", "198.51.7.7", "203.0.113.5", "198.51.0.9"}
+	subnets6 := []string{"2001:db8:1:2:3:4:5:6", "2001:db8:1:2::9", "2001:db8:ffff::1", "2001:db8:1::7"}
 	names := []string{"www.geo.test.", "www.geo.test.", "cdn.geo.test.", "nx.geo.test.", "plain.geo.test."}
 	n := r.Range(5, 22)
 	for i := 0; i < n; i++ {
@@ -555,7 +557,9 @@ func execC19(sc *C19Scenario, tr *kit.Trace, res *kit.Result) {
 				return
 			}
 			sp, _ := apf.Addr().Prefix(eff)
-			if want.Addr().Is4() != apf.Addr().Is4() || !sp.Contains(want.Addr()) {
+			// inside the scope = the whole subnet the client was identified by lies in it: a client
+			// known only as a /16 is not known to be inside a /24 that starts at the same address
+			if want.Addr().Is4() != apf.Addr().Is4() || !sp.Contains(want.Addr()) || sp.Bits() > want.Bits() {
 				res.Fail("C19/scoped-answer-outside-scope", "%s: got the answer %q; its effective scope is %s, the client's forwarded subnet is %s", ctx, tag, sp, want)
 				return
 			}
